@@ -15,8 +15,18 @@ if ! git -C $W apply "$D/patch.diff"; then echo "RESULT $D: patch does not apply
 if ! build $W $W/_build; then echo "RESULT $D: does not compile"; git -C /repo worktree remove --force $W; exit 3; fi
 T=$(ctest --test-dir $W/_build -j8 --timeout 900 2>&1 | grep -E "tests passed|tests failed")
 DEMO=$(ls "$D"/demo.* | head -1)
-run_demo() { case "$DEMO" in *.py) python3 "$DEMO" "$1";; *) sh "$DEMO" "$1";; esac >/dev/null 2>&1; echo $?; }
+run_demo() { case "$DEMO" in *.py) python3 "$DEMO" "$@";; *) sh "$DEMO" "$@";; esac >/dev/null 2>&1; echo $?; }
+if [ -n "${DEMO2:-}" ]; then
+  # C19 demonstrations compare an assertion-enabled build (first argument) with the NDEBUG one (second)
+  buildd() { cmake -G Ninja -S "$1" -B "$2" -DCMAKE_BUILD_TYPE=Debug -DCMAKE_C_FLAGS=-Wno-error -DCMAKE_CXX_FLAGS=-Wno-error >/dev/null 2>&1 && cmake --build "$2" -j16 >/dev/null 2>&1; }
+  [ -x "$ORIG-dbg/dfs/dfs" ] || buildd /repo "$ORIG-dbg" || { echo "orig debug build failed"; exit 2; }
+  buildd $W $W/_build_dbg || { echo "RESULT $D: debug build does not compile"; exit 3; }
+  TD=$(ctest --test-dir $W/_build_dbg -j8 --timeout 900 2>&1 | grep -E "tests passed|tests failed")
+  T="$T (assertion-enabled build: $TD)"
+  DO=$(run_demo "$ORIG-dbg" "$ORIG"); DM=$(run_demo "$W/_build_dbg" "$W/_build")
+else
 DO=$(run_demo "$ORIG"); DM=$(run_demo "$W/_build")
+fi
 echo "CONFIRM $D: tests: $T | demo on original: exit $DO | demo on mutant: exit $DM"
 git -C /repo worktree remove --force $W
 if git -C /repo status --short | grep -q .; then echo "/repo not clean"; exit 2; fi
